@@ -16,7 +16,7 @@ import textwrap
 
 import z3
 
-from .values import (IntSeq, Unsupported, VArr, VBool, VChar, VCls, VCStr, VData, VFloat, VInt, VName, name_code,
+from .values import (IntSeq, Unsupported, VArr, VBool, VChar, VCls, VCStr, VData, VFloat, VInt, VName, VPyInt, name_code,
                      VNone, VOpaque, VPy, VRef, VSeq, VSlice, VStr, VTuple, Val, str_len, to_seq)
 
 _fresh = [0]
@@ -136,6 +136,8 @@ def val_eq(a, b):
         return a.e == name_code(b.s)
     if isinstance(b, VName) and isinstance(a, VCStr):
         return b.e == name_code(a.s)
+    if (isinstance(a, VPyInt) and isinstance(b, VStr)) or (isinstance(a, VStr) and isinstance(b, VPyInt)):
+        return z3.BoolVal(False)  # a genuine Python int equals no string
     if (isinstance(a, VInt) and isinstance(b, VStr)) or (isinstance(a, VStr) and isinstance(b, VInt)):
         # names of types / fields are abstracted to integers in the ADT encodings: comparing one with a string constant is NOT False.
         # (found by a seeded change that looked names up in a table of string pairs and was "proved" because the lookup evaluated to False)
